@@ -185,11 +185,11 @@ pub fn run(ctx: &Ctx, rep: &mut Report) {
                     }
                     let is_member = members.contains(&ci);
                     let was_member = ever.contains(&ci);
-                    let auth_class = *rng.pick(&["own", "own", "own", "own", "nobody", "stranger", "owner", "own-other-arguments"]);
+                    let auth_class = *rng.pick(&["own", "own", "own", "own", "nobody", "stranger", "owner", "own-other-arguments", "own-other-target", "own-other-function"]);
                     // the owner's authorisation is the member's own when the member is the owner
                     let auth_class = if auth_class == "owner" && cand == owner { "own" } else { auth_class };
                     let auth = match auth_class {
-                        "own" | "own-other-arguments" => Auth::Only(vec![cand.clone()]),
+                        "own" | "own-other-arguments" | "own-other-target" | "own-other-function" => Auth::Only(vec![cand.clone()]),
                         "nobody" => Auth::Nobody,
                         "stranger" => Auth::AllBy(stranger.clone()),
                         _ => Auth::AllBy(owner.clone()),
@@ -240,6 +240,20 @@ pub fn run(ctx: &Ctx, rep: &mut Report) {
                                 av.push_back(to_val(env, a));
                             }
                             flat(c.try_execute(&c3, &tg3, &Symbol::new(env, &other_fn), &av)).map(|_| ())
+                        });
+                        let h = sc_addr(&cand);
+                        Auth::Forest(forest.into_iter().filter(|(a, _)| *a == h).collect())
+                    } else if auth_class == "own-other-target" || auth_class == "own-other-function" {
+                        // the same request, but authorised for the other target contract / another function
+                        let (tg3, fn3) = if auth_class == "own-other-target" { (other_target.clone(), fname.clone()) } else { (target.clone(), if fname == "g1" { "f1".to_string() } else if nargs == 1 { "g1".to_string() } else { "log".to_string() }) };
+                        let (oc3, c3, a3) = (ops_c.clone(), cand.clone(), args.clone());
+                        let (_, forest) = u.record(&move |env: &Env| {
+                            let c = AxelarOperatorsClient::new(env, &oc3);
+                            let mut av: SVec<Val> = SVec::new(env);
+                            for a in &a3 {
+                                av.push_back(to_val(env, a));
+                            }
+                            flat(c.try_execute(&c3, &tg3, &Symbol::new(env, &fn3), &av)).map(|_| ())
                         });
                         let h = sc_addr(&cand);
                         Auth::Forest(forest.into_iter().filter(|(a, _)| *a == h).collect())
